@@ -280,8 +280,9 @@ silent(["C16"], "code_data/_cli.py", "        code = compile(pathlib.Path(file).
 fire("C11", A, "        argcount=len(args.positional_only) + len(args.positional_or_keyword),", "        argcount=len(set(args.positional_only)) + len(args.positional_or_keyword),", "counts distinct names (R11.C)")
 fire("C06", J, "        value = copy(value)\n        if isinstance(value[\"constant\"], dict)", "        if isinstance(value[\"constant\"], dict)", "document mutated while loading (R06.M)")
 fire("C05", N, "    if isinstance(x, (Name, Varname, Cellvar)):", "    if isinstance(x, (Name, Varname)):", "Cellvar override survives while unused cells are dropped (R05.Z)")
-fire("C12", "code_data/_constants.py", "    if isinstance(value, frozenset):\n        return frozenset(map(from_constant, value))\n", "", "the original defect: the argument's frozensets (with tuple members) reach CodeType (R12.8)")
-silent(["C12", "C03"], "code_data/_constants.py", "        return frozenset(map(from_constant, value))\n", "        return frozenset(from_constant(v) for v in value)\n", "same copy as a generator expression")
+fire("C12", "code_data/_constants.py", "    if isinstance(value, frozenset) and any(isinstance(v, tuple) for v in value):\n        return frozenset(map(from_constant, value))\n", "", "the original defect: the argument's frozensets (with tuple members) reach CodeType (R12.8)")
+silent(["C12", "C03", "C05"], "code_data/_constants.py", "        return frozenset(map(from_constant, value))\n", "        return frozenset(from_constant(v) for v in value)\n", "same copy as a generator expression")
+fire("C05", "code_data/_constants.py", "    if isinstance(value, frozenset) and any(isinstance(v, tuple) for v in value):\n", "    if isinstance(value, frozenset):\n", "every frozenset rebuilt: iteration order of colliding members changes (R05.K2)")
 fire("C11", B, "            n_args_override = n_args if n_args != _instrsize(arg) else None\n", "            n_args_override = None\n", "the original defect: redundant prefixes of non-jumps forgotten (R11.W)")
 fire("C09", B, "            n_args_override = n_args if n_args != _instrsize(arg) else None\n", "            n_args_override = None\n", "same, under C09 (R09.W)")
 silent(["C11", "C09", "C01"], B, "            n_args_override = n_args if n_args != _instrsize(arg) else None\n", "            n_args_override = None if n_args == _instrsize(arg) else n_args\n", "same width rule, other way round")
